@@ -32,11 +32,13 @@ def shards(tier, seed):
     out = []
     for detect in (True, False):
         for rw in (False, True):
-            if tier == "quick":
-                out.append({"id": "d%d-rw%d" % (detect, rw), "detect": detect, "rw": rw, "L": L, "first": None})
-            else:
-                for f in NONTERM:
-                    out.append({"id": "d%d-rw%d-%s" % (detect, rw, f), "detect": detect, "rw": rw, "L": L, "first": f})
+            for link in (False, True):
+                if tier == "quick":
+                    out.append({"id": "d%d-rw%d-l%d" % (detect, rw, link), "detect": detect, "rw": rw, "link": link, "L": L, "first": None})
+                else:
+                    for f in NONTERM:
+                        out.append({"id": "d%d-rw%d-l%d-%s" % (detect, rw, link, f), "detect": detect, "rw": rw, "link": link, "L": L, "first": f})
+        out.append({"id": "facade-d%d" % detect, "facade": True, "detect": detect, "L": 4 if tier == "quick" else 6})
     out.append({"id": "iscsi", "iscsi": True})
     return out
 
@@ -107,7 +109,7 @@ class World:
         self.sg.handler = lambda ev: (self.status, self.sense)
 
 
-def run_sequence(ctx, w, seq, term, detect, rw):
+def run_sequence(ctx, w, seq, term, detect, rw, link=False, facade=False):
     import pyscsi.pyscsi.scsi_enum_command as E
     from pyscsi.pyscsi.scsi import SCSI
     from pyscsi.pyscsi.scsi_cdb_testunitready import TestUnitReady
@@ -115,7 +117,7 @@ def run_sequence(ctx, w, seq, term, detect, rw):
     from vmon.sim import devnode
     from vmon.spec import sense as SN
 
-    node = devnode.new_node()
+    node = devnode.new_node(link=link)
     del w.handles[:]
     del w.open_modes[:]
     w.fail_next_close = False
@@ -123,7 +125,7 @@ def run_sequence(ctx, w, seq, term, detect, rw):
     w.sg.log = []
     w.sg.pre_hooks = []
     cfg = "detect_%s" % ("on" if detect else "off")
-    wit = {"sequence": seq + term, "detect": detect, "readwrite": rw}
+    wit = {"sequence": seq + term, "detect": detect, "readwrite": rw, "node_is_symlink": link, "through_facade": facade}
     state = {"exists": True, "original": None, "pending_close_failure": False, "pending_open_failure": False, "handle_lost": False, "reached": 0}
 
     def fail(mech, msg):
@@ -157,6 +159,15 @@ def run_sequence(ctx, w, seq, term, detect, rw):
         fail("open_mode", "opened with mode %r" % w.open_modes[-1:])
     dev.opcodes = E.spc
     is_open = True
+    fac = None
+    if facade:
+        w.status, w.sense = 0, None
+        try:
+            fac = SCSI(dev)  # attach: one INQUIRY through the binding
+        except Exception as e:  # noqa: BLE001
+            fail("facade_attach_raises.%s" % type(e).__name__, "SCSI(dev) raised %r" % e)
+            return False
+        dev.opcodes = E.spc
     nontrivial = False
     disturbed = False
 
@@ -222,6 +233,21 @@ def run_sequence(ctx, w, seq, term, detect, rw):
                     fail("check_condition_not_raised", "CHECK CONDITION gave %s" % (type(exc).__name__ if exc else "no exception"))
             if state["exists"] or not detect:
                 quiescent("after exec")
+        elif evn == "A":
+            # the facade is attached again, to the very device it already holds
+            w.status, w.sense = 0, None
+            before = state["reached"]
+            try:
+                fac(dev)
+            except Exception as e:  # noqa: BLE001
+                if state["exists"] or not detect:
+                    fail("facade_reattach_raises.%s" % type(e).__name__, "re-attaching the facade to its own device raised %r" % e)
+            else:
+                if state["reached"] - before != 1:
+                    fail("facade_reattach_command_count", "re-attach sent %d commands" % (state["reached"] - before))
+            dev.opcodes = E.spc
+            if state["exists"] or not detect:
+                quiescent("after re-attach")
         elif evn == "R":
             devnode.replug(node)
             state["exists"] = True
@@ -283,11 +309,7 @@ def run_sequence(ctx, w, seq, term, detect, rw):
             dev.close()
         except Exception:  # noqa: BLE001
             pass
-    if state["exists"]:
-        try:
-            os.unlink(node)
-        except OSError:
-            pass
+    devnode.remove_all(node)
     return nontrivial
 
 
@@ -295,7 +317,19 @@ def run(shard, ctx):
     if shard.get("iscsi"):
         return run_iscsi(ctx)
     w = World()
+    if shard.get("facade"):
+        for n in range(0, shard["L"] + 1):
+            for tup in itertools.product("EFRA", repeat=n):
+                if "A" not in tup:
+                    continue
+                for term in ("", "S"):
+                    nt = run_sequence(ctx, w, "".join(tup), term, shard["detect"], True, False, True)
+                    ctx.case((shard["detect"], "facade", "".join(tup), term), True, sample={"detect": shard["detect"], "through_facade": True, "sequence": "".join(tup) + term} if ctx.want_sample() else None)
+                    ctx.count("sequences")
+        ctx.add("sequence_max_length", shard["L"])
+        return
     detect, rw, L = shard["detect"], shard["rw"], shard["L"]
+    link = shard.get("link", False)
     for n in range(0, L + 1):
         for tup in itertools.product(NONTERM, repeat=n):
             if shard["first"] and (not tup or tup[0] != shard["first"]):
@@ -303,8 +337,8 @@ def run(shard, ctx):
                     continue
             seq = "".join(tup)
             for term in TERM:
-                nt = run_sequence(ctx, w, seq, term, detect, rw)
-                ctx.case((detect, rw, seq, term), bool(nt), sample={"detect": detect, "readwrite": rw, "sequence": seq + term} if ctx.want_sample() else None)
+                nt = run_sequence(ctx, w, seq, term, detect, rw, link)
+                ctx.case((detect, rw, link, seq, term), bool(nt), sample={"detect": detect, "readwrite": rw, "node_is_symlink": link, "sequence": seq + term} if ctx.want_sample() else None)
                 ctx.count("sequences")
     ctx.add("sequence_max_length", L)
 
@@ -375,4 +409,4 @@ def replay(rec, ctx):
     seq = w["sequence"]
     term = seq[-1] if seq and seq[-1] in "CWYS" else ""
     body = seq[:-1] if term else seq
-    run_sequence(ctx, World(), body, term, w["detect"], w["readwrite"])
+    run_sequence(ctx, World(), body, term, w["detect"], w["readwrite"], w.get("node_is_symlink", False), w.get("through_facade", False))
